@@ -232,7 +232,10 @@ def classify(e):
 
 
 class Impl:
-    def __init__(self, t):
+    def __init__(self, t, warm=False):
+        """warm: before anything else the matched type is used the way a Python-object view uses it (to_python_object /
+        from_python_object of a few values) — the answers of the parameter API must not depend on what was called before
+        on the same type (per-class caches of layouts are shared between the two views)"""
         from pytezos.michelson.sections.parameter import ParameterSection
         self.t = t
         self.err = None
@@ -240,6 +243,13 @@ class Impl:
             self.sec = ParameterSection.match({'prim': 'parameter', 'args': [ty_expr(t)]})
         except Exception as e:
             self.sec, self.err = None, classify(e)
+        if warm and self.sec is not None:
+            for v in values_of(t)[:3]:
+                try:
+                    obj = self.sec.from_micheline_value(val_expr(v)).to_python_object()
+                    self.sec.from_python_object(obj)
+                except Exception:      # the Python-object view itself is property C12; here only its side effects matter
+                    pass
 
     def root(self):
         return self.err or ann_tok(self.sec.root_name)
@@ -453,9 +463,9 @@ def shrink(t, v, fails):
 
 
 # ------------------------------------------------------------------------------------------ the check
-def roundtrip_failure(t, v, im=None):
+def roundtrip_failure(t, v, im=None, warm=False):
     """None when the full value v of t round-trips through (entrypoint, argument) on the real code; else (kind, what)"""
-    im = im or Impl(t)
+    im = im or Impl(t, warm=warm)
     r = im.to(v)
     want = spec_resolve(t, v)
     if isinstance(r, str):
@@ -494,10 +504,11 @@ def run(ctx):
     max_vals = 10 if ctx.tier == 'quick' else 6
     lines, plan = [], []   # plan: (kind, payload, line index)
     impls = []
-    for origin, t in types:
+    for ti, (origin, t) in enumerate(types):
         toks = ' '.join(ty_toks(t))
-        im = Impl(t)
-        entry = {'origin': origin, 't': t, 'im': im, 'i0': len(lines)}
+        im = Impl(t, warm=(ti % 2 == 1))
+        ctx.count('python_view_used_first', ti % 2 == 1)
+        entry = {'origin': origin, 't': t, 'im': im, 'i0': len(lines), 'warm': ti % 2 == 1}
         lines += ['root ' + toks, 'list ' + toks, 'spec ' + toks]
         vals = values_of(t, payload=lambda i: i * 3 + 1)
         if len(vals) > max_vals:
@@ -585,10 +596,15 @@ def run(ctx):
                 if kind in seen_kinds and ctx.tier != 'quick' and len(ctx.violations) > 200:
                     continue
                 seen_kinds.add(kind)
-                t2, v2 = shrink(t, v, lambda a, b: (roundtrip_failure(a, b) or ('',))[0] == kind)
-                f2 = roundtrip_failure(t2, v2)
-                ctx.violation(f'{kind}', f'parameter ({ty_str(t2)}), value {val_str(v2)}: {f2[1]}',
-                              {'type': ty_expr(t2), 'value': val_expr(v2), 'kind': kind, 'found_on': {'type': ty_expr(t), 'value': val_expr(v)}})
+                w = en['warm']
+                t2, v2 = shrink(t, v, lambda a, b: (roundtrip_failure(a, b, warm=w) or ('',))[0] == kind)
+                f2 = roundtrip_failure(t2, v2, warm=w)
+                if f2 is None:          # not reproducible on a freshly matched type: keep the case as found
+                    t2, v2, f2 = t, v, f
+                after = ' (after to_python_object / from_python_object were used on the same matched type)' if w else ''
+                ctx.violation(f'{kind}' + (':after-python-view' if w else ''), f'parameter ({ty_str(t2)}), value {val_str(v2)}{after}: {f2[1]}',
+                              {'type': ty_expr(t2), 'value': val_expr(v2), 'kind': kind, 'python_view_used_first': w,
+                               'found_on': {'type': ty_expr(t), 'value': val_expr(v)}})
         # ---- (entrypoint, argument) -> full value -> (entrypoint', argument') -> full value
         for n, a, why in en['calls']:
             ctx.case({'op': 'from', 'type': tdesc, 'entrypoint': n, 'arg': val_str(a)}, nontrivial=nontriv)
@@ -614,9 +630,13 @@ def run(ctx):
                 f = roundtrip_failure(t, r, im)
                 if f is not None and f[0] not in seen_kinds:
                     seen_kinds.add(f[0])
-                    t2, v2 = shrink(t, r, lambda x, y: (roundtrip_failure(x, y) or ('',))[0] == f[0])
-                    ctx.violation(f[0], f'parameter ({ty_str(t2)}), value {val_str(v2)}: {roundtrip_failure(t2, v2)[1]}',
-                                  {'type': ty_expr(t2), 'value': val_expr(v2), 'kind': f[0], 'found_via_entrypoint': n})
+                    w = en['warm']
+                    t2, v2 = shrink(t, r, lambda x, y: (roundtrip_failure(x, y, warm=w) or ('',))[0] == f[0])
+                    f2 = roundtrip_failure(t2, v2, warm=w)
+                    if f2 is None:
+                        t2, v2, f2 = t, r, f
+                    ctx.violation(f[0] + (':after-python-view' if w else ''), f'parameter ({ty_str(t2)}), value {val_str(v2)}: {f2[1]}',
+                                  {'type': ty_expr(t2), 'value': val_expr(v2), 'kind': f[0], 'found_via_entrypoint': n, 'python_view_used_first': w})
                 continue
             # strongest form: a leaf-typed, unshadowed entrypoint comes back as the very same pair
             if sp[n][0] == 'l' and back != (n, a):
